@@ -207,6 +207,8 @@ def step_checked(rec, w, shard, hist_, ms, op):
         return None
     if flushy:
         rec.outcome(repr(post.rows_as_lists()))
+        if len(hist_) >= 2 and (ms.dirty or any(o.marked for o in ms.objs.values())) and any(o.life == "X" for o in post.objs.values()):
+            rec.sample(dict(world=repr(shard["world"]), autoflush=shard["autoflush"], history=ow.fmt_hist(hist_ + (op,)), rows=post.rows_as_lists()), limit=3)
     return post, key
 
 
